@@ -391,6 +391,9 @@ int main(int argc, char** argv) {
   char* line = NULL; size_t cap = 0; ssize_t len;
   if (argc > 1) snprintf(tmpdir, sizeof tmpdir, "%s", argv[1]);
   setvbuf(stdout, NULL, _IOFBF, 1 << 16);
+#ifdef YV_YYDEBUG
+  { extern int yara_yydebug, hex_yydebug, re_yydebug; yara_yydebug = hex_yydebug = re_yydebug = 1; }
+#endif
   yv_alloc_reset();
   int inited = 0;
   if (!(argc > 2 && !strcmp(argv[2], "noinit"))) { API(yr_initialize()); inited = 1; }
